@@ -1224,7 +1224,6 @@ package plugin
 //@   modifies hdata, rd_done
 //@   at call io.Copy#1 assert arg0 == dst && arg1 == src   [C11.wire-r]
 
-
 //@ type GRPCServer
 //@   guarded_by brokerLock: broker   [C20.guard]
 //@   inv this.broker != nil ==> this.broker.streamer != nil && this.broker.doneCh != nil   [C20.close1]
